@@ -19,7 +19,10 @@ def TelDue (k : SimState) (n : Nat) : Prop :=
 `Telescope.run` / `Scheduler.check_ingest_capacity`) -/
 structure Sys.FreeFor (s : Sys) (ob : Obs) : Prop where
   arrays : (ob.demand : Int) ≤ (s.totalArrays : Int) - s.telUse
-  machines : ob.ingestDemand ≤ s.cl.available.length
+  -- F14: the machines available cover the demand and what the reservation counter promises
+  -- beyond the ingest pool (was: `ob.ingestDemand ≤ s.cl.available.length`)
+  machines : (ob.ingestDemand : Int) + max 0 (s.provIngest - (s.cl.ingest.length : Int)) ≤
+    (s.cl.available.length : Int)
   pool : s.cl.ingest.length + ob.ingestDemand ≤ s.maxIngest
   counter : s.provIngest + ob.ingestDemand ≤ s.maxIngest
   hot : ob.rate * ob.duration ≤ s.buf.hot.cur
